@@ -207,6 +207,7 @@ type caseRun struct {
 	dead             map[interface{}]bool // … and those (and the writers) abandoned by a simulated crash: they record nothing any more
 	gen              int                  // incremented by a simulated crash
 	lastGrabX        uint64               // acknowledgements taken by the persister's latest grab
+	relNotObs        int         // acknowledgements released by the persister whose observation (Batch return / callback) is not recorded yet
 	hgen             int                  // handle generation: bumped when a writer is abandoned (simulated crash, callers left blocked)
 	closeErrArmed    bool                 // closeerr scenario: Load closers close, then report an error
 	closeErrInjected int
@@ -467,6 +468,7 @@ func (c *caseRun) traceLocked(kind string, snap *index.Snapshot, x uint64) {
 	case "persisted":
 		if x == 0 {
 			c.recordLocked(fmt.Sprintf("ack %d", snap.VerifEpoch()))
+			c.relNotObs += int(c.lastGrabX) // released by the persister, not yet observed by the callers
 		} else {
 			cl := 0
 			if c.closing && !c.jobErrInjected {
@@ -838,6 +840,7 @@ func (c *caseRun) runBatch(sp batchSpec, wg *sync.WaitGroup) {
 			if err == nil {
 				c.acked[myC] = true
 				c.recordLocked(fmt.Sprintf("ackobs %d", myC))
+				c.relNotObs--
 			} else {
 				c.recordLocked(fmt.Sprintf("nackobs %d", myC))
 			}
@@ -873,6 +876,7 @@ func (c *caseRun) runBatch(sp batchSpec, wg *sync.WaitGroup) {
 		if err == nil {
 			c.acked[myC] = true
 			c.recordLocked(fmt.Sprintf("ackobs %d", myC))
+			c.relNotObs--
 		} else {
 			c.recordLocked(fmt.Sprintf("nackobs %d", myC))
 		}
